@@ -340,6 +340,45 @@ fn overrun_cases<W: Write>(out: &mut W, prop: &str, rng: &mut Rng) {
     }
 }
 
+/// media-run boxes written with the 16-byte 64-bit header although their size fits 32 bits, followed by boxes of exactly
+/// 8 bytes (or by an mdat whose payload begins with a complete `free` header): a scan that takes the header of such a
+/// box to be 8 bytes long lands exactly on a later box boundary, so the file is still accepted - with a wrong span
+fn header_form_cases<W: Write>(out: &mut W, prop: &str, rng: &mut Rng) {
+    let ftyp = bx(b"ftyp", &ftyp_payload(rng, true, 2, 0), Enc::S32);
+    let moov = valid_moov(rng);
+    let cfg = Cfg::default();
+    let empty = |n: &[u8; 4]| bx(n, &[], Enc::S32);
+    for (nm, name) in [("mdat", b"mdat"), ("free", b"free"), ("skip", b"skip"), ("meta", b"meta"), ("meco", b"meco")] {
+        for k in 1..=3usize {
+            for filler in [b"free", b"skip"] {
+                let mut run: Vec<u8> = vec![];
+                if nm != "mdat" {
+                    run.extend(bx(b"mdat", &[1, 2, 3, 4], Enc::S32));
+                }
+                run.extend(bx(name, &[5, 6, 7, 8], Enc::S64));
+                for _ in 0..k {
+                    run.extend(empty(filler));
+                }
+                // a second mdat whose payload starts with a complete empty `free` box and one that covers the rest
+                let mut tail2 = bx(b"free", &[], Enc::S32);
+                tail2.extend(bx(b"free", &[0; 4], Enc::S32));
+                let with_mdat = [run.clone(), bx(b"mdat", &tail2, Enc::S32)].concat();
+                for (lay, bytes) in [
+                    ("noop", [ftyp.clone(), moov.clone(), run.clone()].concat()),
+                    ("rw", [ftyp.clone(), run.clone(), moov.clone()].concat()),
+                    ("noop2", [ftyp.clone(), moov.clone(), with_mdat.clone()].concat()),
+                    ("rw2", [ftyp.clone(), with_mdat.clone(), moov.clone()].concat()),
+                ] {
+                    let s = Sparse::from_bytes(&bytes);
+                    for kind in [Kind::Seekable, Kind::Strict] {
+                        emit(out, prop, &format!("hdrform-{nm}-{k}{}-{lay}-{}", filler[0] as char, kind.name()), &s, &cfg, kind);
+                    }
+                }
+            }
+        }
+    }
+}
+
 /// chunk-offset tables whose entry count crosses the 8- and 16-bit boundaries (a table of 65536 32-bit entries is
 /// 256 KiB: an hour of video at one chunk per 50 ms), next to a small table in a second track; media before the
 /// movie box, so every entry is relocated
@@ -383,11 +422,13 @@ pub fn run<W: Write>(prop: &str, opts: &Opts, out: &mut W) {
                 }
                 eof_mdat_cases(out, prop, &mut rng);
                 overrun_cases(out, prop, &mut rng);
+                header_form_cases(out, prop, &mut rng);
             }
             "C03" => {
                 eof_mdat_cases(out, prop, &mut rng);
                 overrun_cases(out, prop, &mut rng);
                 top_pathologies(out, prop, &mut rng);
+                header_form_cases(out, prop, &mut rng);
             }
             "C01" | "C02" | "C04" => many_entries(out, prop, &mut rng),
             _ => {}
